@@ -6,6 +6,7 @@
 //                    mesh_writer::write; the thrown type must arrive once, after all other items were processed
 // The same modes run in the tsan flavour (TSan + libgomp shim); reports are collected from the TSan log by checks/C15.py.
 #include "vh.hpp"
+#include <sstream>
 #include "tissue.hpp"
 #include "remesh_util.hpp"
 #include "verif_hooks.hpp"
@@ -83,19 +84,28 @@ static RunOut run_tissue(const tis::Scenario& s0, int threads, uint64_t sched_se
     r.inter = interleaving_hash(); std::error_code ec; std::filesystem::remove_all(out, ec); return r;
 }
 
+// every run in a process of its own: state that survives inside the process (function-local statics, caches keyed by ids) would otherwise be
+// initialised by the single-threaded reference run and hide a dependence on which thread / cell gets there first
+static RunOut run_fresh(const tis::Scenario& s0, int threads, uint64_t sched_seed, bool sched_on, uint64_t rng_base, const std::string& out) {
+    IsoResult ir = run_isolated([&]() { RunOut r = run_tissue(s0, threads, sched_seed, sched_on, rng_base, out + "_t" + std::to_string(threads)); std::ostringstream o; o << r.hash << " " << r.inter << " " << r.iters << " " << r.cells << " " << r.exc; return o.str(); }, 600, 1800);
+    RunOut r; if (!ir.completed) { r.exc = "run ended abnormally: signal " + std::to_string(ir.signal) + " exit " + std::to_string(ir.exit_code) + (ir.timeout ? " (time-out)" : "") + " " + ir.err.substr(0, 200); r.hash = hash_str(r.exc); return r; }
+    std::istringstream in(ir.line); in >> r.hash >> r.inter >> r.iters >> r.cells; std::getline(in, r.exc); if (!r.exc.empty() && r.exc[0] == ' ') r.exc.erase(0, 1); return r;
+}
+
 static std::string identity_case(const Args& a, long i) {
     Rng g(a.seed, (uint64_t)i, 0x15); Case c(i);
     int iters = g.range((int)a.geti("min_iterations", 25), (int)a.geti("max_iterations", 50));
     tis::Scenario s = make_far(g, iters);
     auto& S = verif::get(); S.rng_seed = rng_seed; S.sched_point = sched_point; S.phase = on_phase; g_limit = tis::extent_limit(s);
     std::string out = "thr_out_" + std::to_string(i) + "_" + std::to_string((long)getpid()); uint64_t base = hash_combine(a.seed, (uint64_t)i);
-    RunOut ref = run_tissue(s, 1, 0, false, base, out);
+    const bool fresh = a.geti("fresh_process", 1) != 0; auto RUN = [&](int t, uint64_t ss, bool on) { return fresh ? run_fresh(s, t, ss, on, base, out) : run_tissue(s, t, ss, on, base, out); };
+    RunOut ref = RUN(1, 0, false);
     std::set<uint64_t> inter; long runs = 0; std::vector<long> tc;
-    RunOut again = run_tissue(s, 1, 0, false, base, out); runs++;
+    RunOut again = RUN(1, 0, false); runs++;
     if (again.hash != ref.hash) c.viol("repeat_run_differs", "two single-threaded runs with the same inputs end in different states");
     std::vector<int> threads = {2, 3, 4, 8, 16}; int nsched = (int)a.geti("schedules", 2);
     for (int t : threads) for (int k = 0; k < nsched && c.v != "viol"; k++) {
-        RunOut r = run_tissue(s, t, hash_combine(base, (uint64_t)t * 131 + (uint64_t)k), true, base, out); runs++; inter.insert(r.inter);
+        RunOut r = RUN(t, hash_combine(base, (uint64_t)t * 131 + (uint64_t)k), true); runs++; inter.insert(r.inter);
         if (r.hash != ref.hash) c.viol("state_differs_from_single_thread:threads" + std::to_string(t), "final state (positions, momenta, connectivity, labels) with " + std::to_string(t) + " threads differs from the single-threaded run (ref cells=" + std::to_string(ref.cells) + " iters=" + std::to_string(ref.iters) + ", got cells=" + std::to_string(r.cells) + " iters=" + std::to_string(r.iters) + " exc=" + r.exc + ")");
     }
     c.nontrivial = ref.exc.empty() && ref.iters >= 10; c.sig = hash_combine(ref.hash, (uint64_t)inter.size());
